@@ -145,7 +145,9 @@ func (e *vUniteEnv) nextLenAfter(used int) int {
 func VerifC03_unite_untimed() {
 	e := vUniteSetup(false)
 	JS := vParam("JS", 2)
-	e.d.main()
+	vTermWatch(e.d.output)
+	vRunSpawned(0) // the goroutine New started: main
+	vRunLeftoverSpawned()
 	e.checkStream()
 	used := 0
 	for k := 0; k+1 < len(e.outVals); k++ {
@@ -161,7 +163,9 @@ func VerifC03_unite_untimed() {
 func VerifC03_unite_timed() {
 	e := vUniteSetup(true)
 	JS := vParam("JS", 2)
-	e.d.main()
+	vTermWatch(e.d.output)
+	vRunSpawned(0) // the goroutine New started: main
+	vRunLeftoverSpawned()
 	e.checkStream()
 	T := int64(e.d.opts.Timeout)
 	used := 0
